@@ -344,7 +344,9 @@ def _illposed():
         rs = BSplines(make_knots(np.linspace(1.0, 4.0, 5), d, False), d, False, path)
         n = rs.nbasis
         for lN, uN, C, expect in (([0], [0], lambda r: 0.0, True), ([0, 1], [1], lambda r: 0.0, True), ([0], [1], lambda r: 0.0, False),
-                                  ([0], [0], lambda r: 1.0, False), ([], [], lambda r: 0.0, False)):
+                                  ([0], [0], lambda r: 1.0, False), ([], [], lambda r: 0.0, False),
+                                  ([0], [0], lambda r: 0.0 * r, True), ([1], [1, 0], lambda r: 0.0 * r, True), ([0], [0], lambda r: 1.0 + 0.0 * r, False),
+                                  ([0], [0], lambda r: (r - 2.0) ** 2 * 0.1, False)):
             evals += 1
             raised = False
             try:
@@ -356,7 +358,7 @@ def _illposed():
                 continue
             if raised != expect:
                 sig = 'pure-neumann-not-refused' if expect else 'well-posed-problem-refused'
-                viols[sig] = {'sig': sig, 'what': 'degree %d lNeumann=%r uNeumann=%r C%s0: ValueError %s' % (d, lN, uN, '=' if C(1.0) == 0 else '!=', 'missing' if expect else 'raised'), 'detail': {}}
+                viols[sig] = {'sig': sig, 'what': 'degree %d lNeumann=%r uNeumann=%r C%s0: ValueError %s' % (d, lN, uN, '=' if C(1.0) == 0 and C(3.0) == 0 else '!=', 'missing' if expect else 'raised'), 'detail': {}}
     return viols, evals, 0, 0.0
 
 
